@@ -60,7 +60,7 @@ func (verifRandErr) Error() string { return "verif: random source failed" }
 
 func (r verifRandReader) Read(p []byte) (int, error) {
 	*r.calls++
-	if verifNondetBool("rand.fail") {
+	if verifParam("rand.mayfail", 1) == 1 && verifNondetBool("rand.fail") {
 		return 0, verifRandErr{}
 	}
 	for i := range p {
